@@ -42,6 +42,7 @@ from spyne.auxproc import process_contexts
 from spyne.error import RequestTooLongError
 from spyne.protocol.http import HttpRpc
 from spyne.server.http import HttpBase, HttpMethodContext, HttpTransportContext
+from spyne.util import six
 from spyne.util.odict import odict
 from spyne.util.address import address_parser
 
@@ -584,9 +585,18 @@ class WsgiApplication(HttpBase):
                 )
 
         if ctx.method_request_string is None:
+            path_info = wsgi_env['PATH_INFO']
+            if not six.PY2:
+                # PEP 3333: a native string that holds the bytes of the path
+                # decoded as latin-1
+                try:
+                    path_info = path_info.encode('latin-1').decode('utf8')
+                except UnicodeError:
+                    pass
+
             ctx.method_request_string = '{%s}%s' % (
                                     prot.app.interface.get_tns(),
-                                    wsgi_env['PATH_INFO'].split('/')[-1])
+                                    path_info.split('/')[-1])
 
         logger.debug("%sMethod name: %r%s" % (LIGHT_GREEN,
                                           ctx.method_request_string, END_COLOR))
